@@ -4,6 +4,13 @@ use crate::props::PropDef;
 pub fn more() -> Vec<PropDef> {
     vec![
         PropDef {
+            id: "C19",
+            rule: "registry models from G_reg (wild and well-formed: every def kind, optional parts present and absent, arbitrary Unicode) serialised by the library and validated by python jsonschema against schemars::schema_for!(PortableRegistry) (binary built with the schema feature); the schema itself is checked against its meta-schema; plus a registry of real Rust types incl. a bit sequence; non-trivial = a type with one present and one omitted optional part, distinct by JSON text",
+            assumptions: &["python jsonschema 4.26 (Draft 7 validator chosen from the schema's $schema) is the oracle"],
+            subs: crate::p_schema::c19_subs,
+            extra: Some(crate::p_schema::c19_extra),
+        },
+        PropDef {
             id: "C01",
             rule: "four producers: (a) Registry histories (register_type / register_types / map_into_portable, 0..24 ops) over the run-time programmable type family (16 nodes x 44 wrapper shapes, generated cyclic graph specs), invariant checked on Registry::types() after every op; (b) PortableRegistryBuilder histories under the documented reference discipline; (c) retain(mask) on the results and on generated well-formed registries; (d) decode(encode) / from_json(to_json) of each; oracle = id == index, resolve positional and total, every reference < n; non-trivial = at least 2 entries and at least one reference, distinct by (producer, encoding, ops)",
             assumptions: &["builder histories reference only ids already handed out or the announced next_type_id (the documented self-reference idiom)", "Rust types cannot be created at run time: type graphs come from a family of 16 const-generic node types whose type_info() is programmed per case"],
